@@ -74,6 +74,7 @@ impl ClassSet {
 
     fn node(self, icase: bool, negate_set: bool) -> ir::Node {
         let codepoints = if icase {
+            // Class sets only exist with the v flag, which folds like the u flag.
             unicode::add_icase_code_points(self.codepoints)
         } else {
             self.codepoints
@@ -339,11 +340,16 @@ fn codepoints_from_class(ct: CharacterClassType, positive: bool) -> CodePointSet
 
 /// \return a Bracket for a given character escape (positive or negative).
 /// For icase mode, we expand the positive set first, then invert if needed.
-fn make_bracket_class(ct: CharacterClassType, positive: bool, icase: bool) -> ir::Node {
+fn make_bracket_class(
+    ct: CharacterClassType,
+    positive: bool,
+    icase: bool,
+    unicode: bool,
+) -> ir::Node {
     // Get the positive (non-inverted) set, perform any icase expansion, then maybe invert.
     let mut cps = codepoints_from_class_positive(ct);
     if icase {
-        cps = unicode::add_icase_code_points(cps);
+        cps = unicode::add_icase_code_points_in(cps, unicode);
     }
     if !positive {
         cps = cps.inverted();
@@ -847,7 +853,8 @@ where
                 Some(']') => {
                     self.consume(']');
                     if self.flags.icase {
-                        result.cps = unicode::add_icase_code_points(result.cps);
+                        result.cps =
+                            unicode::add_icase_code_points_in(result.cps, self.flags.unicode);
                     }
                     return Ok(ir::Node::Bracket(result));
                 }
@@ -1599,6 +1606,7 @@ where
                     CharacterClassType::Digits,
                     c == 'd' as u32,
                     self.flags.icase,
+                    self.flags.unicode,
                 ))
             }
 
@@ -1608,6 +1616,7 @@ where
                     CharacterClassType::Spaces,
                     c == 's' as u32,
                     self.flags.icase,
+                    self.flags.unicode,
                 ))
             }
 
@@ -1617,6 +1626,7 @@ where
                     CharacterClassType::Words,
                     c == 'w' as u32,
                     self.flags.icase,
+                    self.flags.unicode,
                 ))
             }
 
